@@ -56,6 +56,7 @@ func (_this *Reader) Init(config *configuration.Configuration) {
 func (_this *Reader) SetReader(reader io.Reader) {
 	_this.adapter.Init(reader)
 	_this.reader = &_this.adapter
+	_this.bytesRead = 0
 }
 
 func (_this *Reader) ReadUint8() uint8 {
